@@ -461,7 +461,9 @@ func (t Time) Binary(op syntax.Token, y starlark.Value, side starlark.Side) (sta
 			if side == starlark.Right {
 				return nil, nil // duration - time is not defined
 			}
-			return Time(x.Add(time.Duration(-y))), nil
+			// Subtract in two halves: -y overflows for the most negative duration.
+			h := time.Duration(y) / 2
+			return Time(x.Add(-h).Add(-(time.Duration(y) - h))), nil
 		case Time:
 			// time - time = duration
 			return Duration(x.Sub(time.Time(y))), nil
